@@ -259,30 +259,60 @@ Theorem refresh_is_audience_neutral : forall c st qy up aged rf st' ob x,
 Proof. exact refresh_upstream_sees_no_subnet. Qed.
 Print Assumptions refresh_is_audience_neutral.
 
-(* ---------------------------------------------------------------- declared scopes the code cannot use *)
-(* Full statement wanted: an answer whose authority option carries a non-zero SCOPE, fetched with a
-   forwarded subnet, is never filed under the shared key unless min(forwarded bits, floor) = 0.
-   Proved for the options ReadResponseScope accepts (family 1/2 matching the address, SCOPE within
-   the address width): the answer is filed under the declared scope cut to min(declared, forwarded,
-   floor) — and then scoped_only_inside_scope applies. *)
-Theorem tailored_answer_filed_scoped_partial : forall c st qy up aged rf st' ob s rs,
+(* ---------------------------------------------------------------- tailored answers are never shared *)
+(* An answer whose authority option carries a non-zero SCOPE — usable or not — fetched with a
+   forwarded subnet longer than /0, is always filed under a scoped key no longer than what was
+   forwarded (and then scoped_only_inside_scope applies): never under the shared key.
+   (Before the repair of finding unusable-scope-filed-shared this was refuted: SCOPE /33 on an IPv4
+   option was read as "no scope".) *)
+Theorem tailored_answer_never_shared : forall c st qy up aged rf st' ob s,
+  serve c st qy up aged rf = (st', ob) -> ob_src ob = 0 ->
+  req_scope_of c qy = Some s -> tailored up = true -> p_bits s <> 0 ->
+  exists sS ttl, ob_stored ob = Some (Some sS, ttl) /\ 1 <= p_bits sS /\ p_bits sS <= p_bits s.
+Proof. exact tailored_answer_scoped_lemma. Qed.
+Print Assumptions tailored_answer_never_shared.
+
+(* ... precisely: under its audience prefix — the declared scope when ReadResponseScope can read it,
+   the forwarded prefix itself otherwise — cut to min(audience, forwarded, floor) *)
+Theorem tailored_answer_filed_under_audience : forall c st qy up aged rf st' ob s,
+  serve c st qy up aged rf = (st', ob) -> ob_src ob = 0 ->
+  req_scope_of c qy = Some s -> tailored up = true ->
+  exists A ttl,
+    (read_response_scope (u_opts up) = Some A \/ (read_response_scope (u_opts up) = None /\ A = s)) /\
+    ob_stored ob = Some (normalize_scope (clamp_scope (policy_of (c_b c)) (Some A) (Some s)), ttl).
+Proof. exact tailored_answer_never_shared_lemma. Qed.
+Print Assumptions tailored_answer_filed_under_audience.
+
+Theorem tailored_answer_filed_scoped : forall c st qy up aged rf st' ob s rs,
   serve c st qy up aged rf = (st', ob) -> ob_src ob = 0 ->
   req_scope_of c qy = Some s -> read_response_scope (u_opts up) = Some rs ->
   exists ttl, ob_stored ob = Some (normalize_scope (clamp_scope (policy_of (c_b c)) (Some rs) (Some s)), ttl).
 Proof. exact tailored_answer_filed_scoped. Qed.
-Print Assumptions tailored_answer_filed_scoped_partial.
+Print Assumptions tailored_answer_filed_scoped.
 
-(* False beyond that (finding unusable-scope-filed-shared): SCOPE /33 on an IPv4 option — a scope
-   "longer than what was forwarded", which the property wants cut down to the forwarded /24 — is
-   read as "no scope"; the answer goes under the shared key and a client that sent no subnet option
-   is served it.  Replayed on the Go code by the cache driver on every run. *)
-Theorem tailored_answer_never_shared_refuted :
+(* a SCOPE longer than the family's addresses is read as the whole address, for every well-formed option *)
+Theorem overlong_scope_is_the_whole_address : forall l sub a,
+  first_ecs l = Some sub -> e_scope sub <> 0 -> ip_to_addr (e_addr sub) = Some a ->
+  e_family sub = (if a_is4 a then 1 else 2) ->
+  exists px, read_response_scope (Some l) = Some px /\ p_bits px = N.min (e_scope sub) (awidth (a_is4 a)).
+Proof. exact read_response_scope_overlong. Qed.
+Print Assumptions overlong_scope_is_the_whole_address.
+
+(* the two histories of the former finding, as the repaired code runs them (replayed on the Go code
+   by the cache driver on every run): SCOPE /33 stays with 203.0.113.0/24; family 2 on a 4-byte
+   address is kept for the /24 that asked; the client without a subnet option gets its own answer *)
+Example overlong_scope_example :
   tailored (mk_uresp 1 60000000000 (Some [OEcs (mk_ecs 1 24 33 (mk_ipb 4 3405803776))])) = true /\
   snd (run overlong_cfg [] overlong_ops) =
-  [ mk_obs 0 1 (Some (Some ecs_a)) (Some (None, 60000000000%Z)) None;
-    mk_obs 2 1 None None None ].
-Proof. exact overlong_scope_is_shared. Qed.
-Print Assumptions tailored_answer_never_shared_refuted.
+  [ mk_obs 0 1 (Some (Some ecs_a)) (Some (Some (mk_pfx true 3405803776 24), 60000000000%Z)) None;
+    mk_obs 0 3 (Some None) (Some (None, 60000000000%Z)) None ].
+Proof. exact overlong_scope_stays_scoped. Qed.
+Example unusable_scope_example :
+  snd (run overlong_cfg [] unusable_ops) =
+  [ mk_obs 0 1 (Some (Some ecs_a)) (Some (Some (mk_pfx true 3405803776 24), 60000000000%Z)) None;
+    mk_obs 0 3 (Some None) (Some (None, 60000000000%Z)) None;
+    mk_obs 1 1 None None None ].
+Proof. exact unusable_scope_kept_for_the_asker. Qed.
 
 (* ---------------------------------------------------------------- scoped_ttl_capped *)
 (* every history, no premise: a scoped entry never outlives the configured limit (when one is set) *)
